@@ -13,7 +13,11 @@ use std::process::{Child, Command, Stdio};
 use std::sync::mpsc;
 use std::time::{Duration, Instant};
 
-pub const VERIF_DIR: &str = "/verif";
+/// Home of the machinery: /verif, or the snapshot a background run works in (VERIF_HOME), so
+/// that such a run reads ITS findings/witnesses and writes ITS replays, not the live ones.
+pub fn verif_dir() -> String {
+    std::env::var("VERIF_HOME").unwrap_or_else(|_| "/verif".to_string())
+}
 
 // ---------------------------------------------------------------------------
 // counting allocator (peak live bytes per case)
@@ -72,7 +76,7 @@ pub struct Finding {
 }
 
 pub fn known_findings_path() -> String {
-    std::env::var("VERIF_KNOWN").unwrap_or_else(|_| format!("{}/KNOWN_FINDINGS.txt", VERIF_DIR))
+    std::env::var("VERIF_KNOWN").unwrap_or_else(|_| format!("{}/KNOWN_FINDINGS.txt", verif_dir()))
 }
 
 pub fn load_findings() -> Vec<Finding> {
@@ -119,7 +123,7 @@ fn seed_from_env() -> u64 {
 }
 
 fn tmp_dir() -> String {
-    let d = format!("{}/target/tmp", VERIF_DIR);
+    let d = format!("{}/target/tmp", verif_dir());
     let _ = std::fs::create_dir_all(&d);
     d
 }
@@ -331,7 +335,7 @@ fn child_exe() -> std::path::PathBuf {
 }
 
 pub fn fast_bin_path() -> std::path::PathBuf {
-    std::env::var("VERIF_FAST_BIN").map(std::path::PathBuf::from).unwrap_or_else(|_| std::path::PathBuf::from(format!("{}/target/fast/cfbsim", VERIF_DIR)))
+    std::env::var("VERIF_FAST_BIN").map(std::path::PathBuf::from).unwrap_or_else(|_| std::path::PathBuf::from(format!("{}/target/fast/cfbsim", verif_dir())))
 }
 
 pub struct ExecResult {
@@ -864,7 +868,7 @@ pub fn run_main(args: &[String]) -> i32 {
     let findings: Vec<Finding> = load_findings().into_iter().filter(|f| f.property == def.id).collect();
     let mut known_lines = vec![];
     for f in &findings {
-        let wpath = if f.witness.starts_with('/') { f.witness.clone() } else { format!("{}/{}", VERIF_DIR, f.witness) };
+        let wpath = if f.witness.starts_with('/') { f.witness.clone() } else { format!("{}/{}", verif_dir(), f.witness) };
         let still = match std::fs::read_to_string(&wpath).ok().and_then(|t| serde_json::from_str::<Value>(&t).ok()) {
             Some(v) => match Case::from_json(&v["case"]) {
                 Ok(c) => exec_case_subprocess(&c, true, 600).sigs.iter().any(|s| *s == f.sig),
@@ -884,7 +888,7 @@ pub fn run_main(args: &[String]) -> i32 {
     // 1b. regression witnesses of repaired defects: must no longer reproduce
     let mut regress_fail = vec![];
     let mut regress_n = 0;
-    if let Ok(rd) = std::fs::read_dir(format!("{}/findings/fixed", VERIF_DIR)) {
+    if let Ok(rd) = std::fs::read_dir(format!("{}/findings/fixed", verif_dir())) {
         let mut files: Vec<_> = rd.flatten().map(|e| e.path()).filter(|p| p.extension().map(|x| x == "json").unwrap_or(false)).collect();
         files.sort();
         for f in files {
@@ -940,7 +944,7 @@ pub fn run_main(args: &[String]) -> i32 {
     }
     let mut exit = 0;
     let mut harness_error = !res.agg.harness_errors.is_empty();
-    let replay_dir = format!("{}/replays", VERIF_DIR);
+    let replay_dir = format!("{}/replays", verif_dir());
     let mut reported = vec![];
     let min_budget = Duration::from_secs(if tier == Tier::Quick { 40 } else { 180 } / (by_sig.len().max(1) as u64).min(8).max(1));
     for (sig, (idx, v, case, count)) in by_sig.iter().take(12) {
@@ -1056,9 +1060,9 @@ pub fn run_main(args: &[String]) -> i32 {
     let epath = if end.is_some() || std::env::var("VERIF_NO_EVIDENCE").is_ok() {
         format!("{}/evidence-partial-{}.json", tmp_dir(), def.id)
     } else {
-        format!("{}/evidence/{}.json", VERIF_DIR, def.id)
+        format!("{}/evidence/{}.json", verif_dir(), def.id)
     };
-    let _ = std::fs::create_dir_all(format!("{}/evidence", VERIF_DIR));
+    let _ = std::fs::create_dir_all(format!("{}/evidence", verif_dir()));
     if let Err(e) = std::fs::write(&epath, serde_json::to_string_pretty(&evidence).unwrap()) {
         eprintln!("HARNESS ERROR: cannot write {}: {}", epath, e);
         return 2;
